@@ -7,7 +7,7 @@ From Hera.Lib Require Import Py Machine Word16.
 From Hera.Gen Require Import Ops.
 From Hera.Spec Require Import ISA Wf EncTable.
 From Hera.Model Require Import OpRep InstrOf Bitvec Run Listing.
-From Hera.Proofs Require Import C02_Run C02_Init C05_Sweep C05_Codec C06_Decode C06_Sim C06_Image C06_Listing.
+From Hera.Proofs Require Import C02_Run C02_Init C05_Sweep C05_Codec C06_Decode C06_Sim C06_Image C06_Listing C06_ListingFull.
 Import ListNotations.
 Open Scope Z_scope.
 
@@ -80,6 +80,15 @@ Theorem C06_data_image_cells : forall ds cells, 1 <= ds ->
   (forall i, 0 <= i < Z.of_nat (List.length cells) -> cell_at (image_of ds cells) (ds + i) = nth (Z.to_nat i) cells 0).
 Proof. exact image_cells. Qed.
 Print Assumptions C06_data_image_cells.
+
+(* the whole text of `hera assemble --stdout`: a reader that takes the lines between "[DATA]" and "[CODE]" as a
+   Logisim image and the lines after "[CODE]" as one word each (two leading blanks removed) gets back the data image
+   and the words *)
+Theorem C06_full_listing_reads_back : forall ds cells ws,
+  1 <= ds -> ds + Z.of_nat (List.length cells) <= 65536 -> Forall word cells -> ws <> [] -> Forall word ws ->
+  read_full (full_listing ds cells ws) = Some (image_of ds cells, ws).
+Proof. exact read_full_listing. Qed.
+Print Assumptions C06_full_listing_reads_back.
 
 Example C06_listing_example :
   data_listing 49153 [5; 0; 65535] =
